@@ -184,7 +184,7 @@ Wake ==
   /\ sh.stalled /\ ~sh.dead
   /\ \A k \in Reading : ~attr[k].tmo /\ sh.pipe = <<>>     \* a reader is fast; a short timeout fires first
   /\ sh' = [sh EXCEPT !.stalled = FALSE]
-  /\ H("wake", 0, 0)
+  /\ H("wake", sh.cur, 0)
   /\ UNCHANGED <<attr, pc, ret, runs, garbled, buf, killed>>
 
 Kill ==
